@@ -121,6 +121,9 @@ macro_rules! hist_impl {
             fn from_json(s: &str) -> Self {
                 serde_json::from_str(s).unwrap()
             }
+            fn roundtrip_pos(&self) -> Option<Result<Self, String>> {
+                Some(crate::posfmt::roundtrip(self))
+            }
             fn debug(&self) -> String {
                 format!("{:?}", self)
             }
@@ -211,6 +214,16 @@ fn serde_case_on<H: HistT>(h0: H, edges: Vec<f64>, label: &str, rng: &mut Xoshir
         None => return,
     };
     let mut b = H::from_json(&j);
+    if let Some(Ok(bp)) = a.roundtrip_pos() {
+        rep.evaluations += 1;
+        if bp.bins() != a.bins() || !bp.ranges().iter().zip(a.ranges()).all(|(p, q)| p.to_bits() == q.to_bits()) {
+            fail(rep, "the copy restored through the positional format differs".into());
+            return;
+        }
+        if n1 % 2 == 1 {
+            b = bp;
+        }
+    }
     rep.evaluations += 4;
     let same_bits = |x: &[f64], y: &[f64]| x.len() == y.len() && x.iter().zip(y).all(|(p, q)| p.to_bits() == q.to_bits());
     if !same_bits(&a.ranges(), &b.ranges()) {
